@@ -111,6 +111,9 @@ Qed.
 Lemma wacc_app s y x q v : wrun (fl_trans s) (Some y) x = Some q -> wacc s y (x ++ v) = wacc s q v.
 Proof. intro H. unfold wacc. rewrite wrun_app, H. reflexivity. Qed.
 
+Lemma wacc_true_run s y w : wacc s y w = true -> exists q, wrun (fl_trans s) (Some y) w = Some q.
+Proof. unfold wacc. destruct (wrun (fl_trans s) (Some y) w) as [q|]; [eauto|discriminate]. Qed.
+
 Section Final.
   Variables (s : flst) (done : list word).
   Hypothesis HI : Inv s done [].
@@ -149,5 +152,12 @@ Section Final.
   Proof.
     destruct (longest_word done Hne) as [w [Hw Hmax]].
     assert (Hr : wacc s [] w = true) by (apply (i_lang _ _ _ HI [] (pre_nil _)); exact Hw).
-Show.
-Abort.
+    destruct (wacc_true_run s [] w Hr) as [q Eq].
+    exists w, q. split; [exact Eq|]. intro a. destruct (wdelta (fl_trans s) q a) as [t|] eqn:Ed; [|reflexivity]. exfalso.
+    assert (Htn : t <> []) by (intro E; subst t; exact (no_edge_to_root _ _ _ _ _ HI Ed)).
+    destruct (i_live _ _ _ HI t (i_closed _ _ _ HI _ _ _ Ed) Htn) as [v Hv].
+    assert (Hacc : wacc s [] (w ++ a :: v) = true).
+    { rewrite (wacc_app s [] w q (a :: v) Eq), wacc_cons, Ed. exact Hv. }
+    apply (i_lang _ _ _ HI [] (pre_nil _)) in Hacc. simpl in Hacc. specialize (Hmax _ Hacc). rewrite app_length in Hmax. simpl in Hmax. lia.
+  Qed.
+End Final.
